@@ -5,7 +5,7 @@ import numpy as np
 from hypothesis import strategies as st
 
 from vlib import gens
-from vlib.core import Prop, Sub, Violation, calling, check
+from vlib.core import unchanged, Prop, Sub, Violation, calling, check
 from vlib.oracles import bvls, lp_dist
 from vlib.systems import NOMINAL_RANGE, proportional_variant, Sys, matrix_system, target_rows
 
@@ -50,7 +50,8 @@ def run_fit(sv: Sys, B, W, entry, opt):
     with calling("ReceptorEstimator.fit"):
         if W is None:
             est = sv.make_estimator()
-            X, Bp = est.fit(B, **opt)
+            with unchanged("fit", estimator=est):
+                X, Bp = est.fit(B, **opt)
         elif np.ndim(W) == 1:
             est = sv.make_estimator(w=np.asarray(W, dtype=float))
             X, Bp = est.fit(B, **opt)
